@@ -27,6 +27,8 @@ def gen(seed, index):
     if rng.random() < 0.1:
         # numeric edge: a curve shape that is not 0 but below the 10-digit resolution (a read must not "normalise" it)
         rng.choice(e[1:])[2] = g.hexf(rng.choice([4e-11, -3e-11, 9e-11, 1e-12]))
+    if rng.random() < 0.02:
+        e = [e[0]]                   # no control point at all: every read is rejected (and leaves it empty)
     qs = []
     for _ in range(rng.randint(1, 12)):
         k = rng.choice(["value_at", "parameter_at", "curve_shape_at", "curve_shape_at", "point_at", "point_at", "range", "range",
@@ -71,6 +73,8 @@ def compare(case, mo, io):
             continue
         if is_err(b) and b[1] == "ZeroDivisionError" and not is_err(a) and ("nan" in sx.show(a) or "inf" in sx.show(a)):
             continue    # exp(c) - 1 underflows to 0 for a sub-resolution shape: Python raises where IEEE arithmetic gives nan / inf
+        if is_err(a) and is_err(b) and a[1] == "EmptyEnvelopeError" and b[1] in ("EmptyEnvelopeError", "RecursionError"):
+            continue    # an envelope without control points: the read is rejected (a FlexTempo fails while formatting the error: as in C11)
         if not same(a, b, rel=1e-9, abs_=1e-12):
             return f"read {k} {sx.show(q)}: model {sx.show(a)} impl {sx.show(b)}"
     return None
